@@ -497,9 +497,14 @@ func Sprintf(name string, a []Val) (string, error) {
 				return mismatch()
 			}
 		case 's', 'q':
-			if s, ok := arg.(string); ok {
-				sb.WriteString(fmt.Sprintf(spec, s))
-			} else {
+			switch x := arg.(type) {
+			case string:
+				sb.WriteString(fmt.Sprintf(spec, x))
+			case *Arr, *Map:
+				// composites are rendered in their print form by the implementation; the documentation only
+				// speaks of "string value" - not judged
+				return "", &LatitudeErr{"%s / %q of a composite value"}
+			default:
 				return mismatch()
 			}
 		case 'v':
